@@ -674,7 +674,7 @@ func funcGroup(fn *ssa.Function) []*ssa.Function {
 			if callee == nil {
 				continue
 			}
-			pk, rp := callee.Pkg, pkgOfFunc(fn)
+			pk, rp := pkgOfFunc(callee), pkgOfFunc(fn)
 			if pk != nil && pk == rp {
 				add(callee, depth+1)
 			}
